@@ -514,6 +514,13 @@ class Ctx:
                 lines.pop()
             elif lines and not lines[-1].endswith(b"}"):
                 lines.pop()     # torn line
+            at_line = ""; at_reset = ""
+            if not done and lines and lines[-1].startswith(b'{"e":"AtLine"'):
+                try:
+                    al = json.loads(lines.pop().decode("utf8", "replace"))   # the script line that was executing, and its execution's R line
+                    at_line = al["text"]; at_reset = al.get("reset", "")
+                except Exception:
+                    at_line = ""
             nexec = sum(1 for l in lines if l.startswith(b'{"e":"Reset"'))
             with open(trace, "ab") as f:
                 for l in lines:
@@ -521,7 +528,7 @@ class Ctx:
                 if not done:
                     kind, where = _fault_kind(rc, err)
                     self.faults += 1
-                    f.write(json.dumps({"e": "Fault", "kind": kind, "where": where, "rc": rc}).encode() + b"\n")
+                    f.write(json.dumps({"e": "Fault", "kind": kind, "where": where, "rc": rc, "line": at_line, "reset": at_reset}).encode() + b"\n")
             if done:
                 break
             if rc == 3:
@@ -737,6 +744,22 @@ def _violation_text(out):
     return m.group(1)[:6000] if m else out[-3000:]
 
 
+def fault_line(d):
+    """the script line a replay record's Fault event died in (as a one-element list), for replay scripts built from events"""
+    e = d.get("event") or {}
+    return [e["line"]] if e.get("e") == "Fault" and e.get("line") else []
+
+
+def replay_fault(ctx, d, drv, judge_module, path):
+    """replay of a Fault record of a check whose calls are independent: the execution's R line and the line that died"""
+    e = d["event"]
+    if not e.get("line"):
+        raise InfraError("the replay record does not name the script line that faulted")
+    t = ctx.drive(drv, [e.get("reset") or "R", e["line"]], "replay")
+    ctx.report(ctx.judge(judge_module, [t]))
+    return ctx.finish(rule="replay of " + path)
+
+
 def _fault_kind(rc, err):
     where = ""
     m = re.search(r"ERROR: AddressSanitizer: ([\w-]+)", err)
@@ -756,6 +779,8 @@ def _fault_kind(rc, err):
         return "tsan:" + m.group(1).strip(), ""
     if rc in (-14, 142):
         return "timeout", ""
+    if rc in (-27, 155):
+        return "timeout", "cpu"
     if rc in (-6, 134):
         m = re.search(r"Assertion `([^']*)' failed", err)
         return "abort", (m.group(1) if m else err[-160:].strip())
